@@ -238,6 +238,10 @@ impl Check for C17 {
             "ant-cli's wallet/encryption.rs is a binary-crate module; it is compiled into the harness from /repo's working tree via #[path]".into(),
         ]
     }
+    fn hang_cpu_budget(&self, _tier: Tier) -> Option<std::time::Duration> {
+        // a case of this check is a few milliseconds of computation; one that has burnt two minutes of CPU time is not coming back
+        Some(std::time::Duration::from_secs(120))
+    }
     fn cases(&self, tier: Tier) -> u64 {
         tier.pick(1_000, 40_000)
     }
